@@ -186,6 +186,18 @@ add(
     "DESIGN.md §4 C16",
 )
 
+add(
+    "C17", "exploration",
+    "bounded-exhaustive dep5 patterns + Hypothesis-generated dep5 files over witness trees; differential lint --json before vs after convert-dep5; snapshot delta; injected write fault",
+    "Every valid dep5 pattern of up to 3 (quick) / 4 (thorough) atoms over {a b . / * ? \\* \\? \\\\} as a one-paragraph project, plus generated multi-"
+    "paragraph dep5 files (several patterns per paragraph, multi-line copyright, licence bodies, comments, header fields), over trees whose paths are "
+    "derived from the patterns (wildcards instantiated with and without '/', one-character mutations) and files with own headers; per-file "
+    "attribution and exit status must be identical before and after the conversion, the tree delta must be {-dep5, +REUSE.toml}, a failing write must "
+    "keep dep5, and without dep5 the command must refuse. Two recorded findings ('?', '*/') are accepted only when they explain every differing file.",
+    "The tool's own lint before the conversion is the reference; vlib/ref/globlang.py only generates witness paths and judges which recorded finding explains a difference.",
+    "DESIGN.md §4 C17",
+)
+
 NOT_BUILT = "check not built yet in this revision of /verif (planned in DESIGN.md §4; property-based testing applies)"
 
 
